@@ -413,6 +413,49 @@ pub(crate) fn stringify_reference(
     }
 }
 
+/// Binding strength of the outermost operator of a node: the level of the grammar rule (see the grammar
+/// in `parser/mod.rs`) that produces it, from 1 (a comparison) to 9 (a primary).
+/// An operand that the parser reads at level `n` must be printed in parentheses when its own level is lower than `n`.
+pub(crate) fn precedence(node: &Node) -> u8 {
+    match node {
+        Node::CompareKind { .. } => 1,
+        Node::OpConcatenateKind { .. } => 2,
+        Node::OpSumKind { .. } => 3,
+        Node::OpProductKind { .. } => 4,
+        Node::OpPowerKind { .. } => 5,
+        Node::UnaryKind { .. } => 6,
+        Node::OpRangeKind { .. } => 7,
+        Node::ImplicitIntersection { .. } | Node::SpillRangeOperator { .. } => 8,
+        _ => 9,
+    }
+}
+
+/// Prints `node` where the parser reads an operand of grammar level `level`
+#[allow(clippy::too_many_arguments)]
+fn stringify_operand(
+    node: &Node,
+    level: u8,
+    context: Option<&CellReferenceRC>,
+    displace_data: &DisplaceData,
+    export_to_excel: bool,
+    locale: &Locale,
+    language: &Language,
+) -> String {
+    let s = stringify(
+        node,
+        context,
+        displace_data,
+        export_to_excel,
+        locale,
+        language,
+    );
+    if precedence(node) < level {
+        format!("({s})")
+    } else {
+        s
+    }
+}
+
 fn format_function(
     name: &str,
     args: &Vec<Node>,
@@ -652,159 +695,116 @@ fn stringify(
         }
         OpRangeKind { left, right } => format!(
             "{}:{}",
-            stringify(
+            stringify_operand(
                 left,
+                8,
                 context,
                 displace_data,
                 export_to_excel,
                 locale,
-                language
+                language,
             ),
-            stringify(
+            stringify_operand(
                 right,
+                9,
                 context,
                 displace_data,
                 export_to_excel,
                 locale,
-                language
+                language,
             )
         ),
         OpConcatenateKind { left, right } => format!(
             "{}&{}",
-            stringify(
+            stringify_operand(
                 left,
+                2,
                 context,
                 displace_data,
                 export_to_excel,
                 locale,
-                language
+                language,
             ),
-            stringify(
+            stringify_operand(
                 right,
+                3,
                 context,
                 displace_data,
                 export_to_excel,
                 locale,
-                language
+                language,
             )
         ),
         CompareKind { kind, left, right } => format!(
             "{}{}{}",
-            stringify(
+            stringify_operand(
                 left,
+                1,
                 context,
                 displace_data,
                 export_to_excel,
                 locale,
-                language
+                language,
             ),
             kind,
-            stringify(
+            stringify_operand(
                 right,
+                2,
                 context,
                 displace_data,
                 export_to_excel,
                 locale,
-                language
+                language,
             )
         ),
         OpSumKind { kind, left, right } => {
-            // CompareKind has lower precedence than +/-, so wrap it to preserve semantics
-            let left_str = if matches!(**left, CompareKind { .. }) {
-                format!(
-                    "({})",
-                    stringify(
-                        left,
-                        context,
-                        displace_data,
-                        export_to_excel,
-                        locale,
-                        language
-                    )
-                )
-            } else {
-                stringify(
+            // `a+(b+c)` is printed as `a+b+c`, but `a-(b+c)` keeps its parentheses
+            let right_level = if matches!(kind, OpSum::Minus) { 4 } else { 3 };
+            format!(
+                "{}{}{}",
+                stringify_operand(
                     left,
+                    3,
                     context,
                     displace_data,
                     export_to_excel,
                     locale,
                     language,
-                )
-            };
-            // if kind is minus then we need parentheses in the right side if they are OpSumKind or CompareKind
-            let right_str = if (matches!(kind, OpSum::Minus) && matches!(**right, OpSumKind { .. }))
-                | matches!(**right, CompareKind { .. })
-            {
-                format!(
-                    "({})",
-                    stringify(
-                        right,
-                        context,
-                        displace_data,
-                        export_to_excel,
-                        locale,
-                        language
-                    )
-                )
-            } else {
-                stringify(
+                ),
+                kind,
+                stringify_operand(
                     right,
+                    right_level,
                     context,
                     displace_data,
                     export_to_excel,
                     locale,
                     language,
                 )
-            };
-
-            format!("{left_str}{kind}{right_str}")
+            )
         }
-        OpProductKind { kind, left, right } => {
-            let x = match **left {
-                OpSumKind { .. } | CompareKind { .. } => format!(
-                    "({})",
-                    stringify(
-                        left,
-                        context,
-                        displace_data,
-                        export_to_excel,
-                        locale,
-                        language
-                    )
-                ),
-                _ => stringify(
-                    left,
-                    context,
-                    displace_data,
-                    export_to_excel,
-                    locale,
-                    language,
-                ),
-            };
-            let y = match **right {
-                OpSumKind { .. } | CompareKind { .. } | OpProductKind { .. } => format!(
-                    "({})",
-                    stringify(
-                        right,
-                        context,
-                        displace_data,
-                        export_to_excel,
-                        locale,
-                        language
-                    )
-                ),
-                _ => stringify(
-                    right,
-                    context,
-                    displace_data,
-                    export_to_excel,
-                    locale,
-                    language,
-                ),
-            };
-            format!("{x}{kind}{y}")
-        }
+        OpProductKind { kind, left, right } => format!(
+            "{}{}{}",
+            stringify_operand(
+                left,
+                4,
+                context,
+                displace_data,
+                export_to_excel,
+                locale,
+                language,
+            ),
+            kind,
+            stringify_operand(
+                right,
+                5,
+                context,
+                displace_data,
+                export_to_excel,
+                locale,
+                language,
+            )
+        ),
         OpPowerKind { left, right } => {
             let x = match **left {
                 BooleanKind(_)
@@ -960,34 +960,8 @@ fn stringify(
         NamedVariableKind { name, id: _ } => name.to_string(),
         UnaryKind { kind, right } => match kind {
             OpUnary::Minus => {
-                let needs_parentheses = match **right {
-                    BooleanKind(_)
-                    | NumberKind(_)
-                    | StringKind(_)
-                    | ReferenceKind { .. }
-                    | RangeKind { .. }
-                    | WrongReferenceKind { .. }
-                    | WrongRangeKind { .. }
-                    | OpRangeKind { .. }
-                    | OpConcatenateKind { .. }
-                    | OpProductKind { .. }
-                    | FunctionKind { .. }
-                    | NamedFunctionKind { .. }
-                    | LambdaDefKind { .. }
-                    | LambdaCallKind { .. }
-                    | ArrayKind(_)
-                    | DefinedNameKind(_)
-                    | TableNameKind(_)
-                    | NamedVariableKind { .. }
-                    | ImplicitIntersection { .. }
-                    | SpillRangeOperator { .. }
-                    | CompareKind { .. }
-                    | ErrorKind(_)
-                    | ParseErrorKind { .. }
-                    | EmptyArgKind => false,
-
-                    OpPowerKind { .. } | OpSumKind { .. } | UnaryKind { .. } => true,
-                };
+                // after the signs the parser reads a range-level operand
+                let needs_parentheses = precedence(right) < 7;
                 if needs_parentheses {
                     format!(
                         "-({})",
@@ -1017,13 +991,14 @@ fn stringify(
             OpUnary::Percentage => {
                 format!(
                     "{}%",
-                    stringify(
+                    stringify_operand(
                         right,
+                        6,
                         context,
                         displace_data,
                         export_to_excel,
                         locale,
-                        language
+                        language,
                     )
                 )
             }
@@ -1047,13 +1022,14 @@ fn stringify(
             };
             format!(
                 "{}#",
-                stringify(
+                stringify_operand(
                     child,
+                    9,
                     context,
                     displace_data,
                     export_to_excel,
                     locale,
-                    language
+                    language,
                 )
             )
         }
@@ -1142,13 +1118,14 @@ fn stringify(
             }
             format!(
                 "@{}",
-                stringify(
+                stringify_operand(
                     child,
+                    9,
                     context,
                     displace_data,
                     export_to_excel,
                     locale,
-                    language
+                    language,
                 )
             )
         }
